@@ -90,6 +90,17 @@ func init() {
 			e.assume(st, T(SBool, fmt.Sprintf("(forall ((i Int)) (! (=> (and (> %s 1) (<= 0 i) (< i %s)) (>= (select (slc_arr %s) i) 128)) :pattern ((select (slc_arr %s) i))))", n.S, n.S, p.S, p.S)))
 			return Val{Tuple: []Val{r, {T: n, GT: intT}}}
 		},
+		// strings.Cut(s, sep): before + sep + after == s at the FIRST occurrence of sep, or (s, "", false)
+		"strings.Cut": func(e *Exec, st *State, a []Val, x *ast.CallExpr) Val {
+			before := e.sc.Fresh("cut_before", SString)
+			after := e.sc.Fresh("cut_after", SString)
+			found := App(SBool, "str.contains", a[0].T, a[1].T)
+			e.assume(st, Ite(found,
+				And(Eq(a[0].T, App(SString, "str.++", before, a[1].T, after)),
+					Eq(App(SInt, "str.len", before), App(SInt, "str.indexof", a[0].T, a[1].T, IntLit(0)))),
+				And(Eq(before, a[0].T), Eq(after, StrLit("")))))
+			return Val{Tuple: []Val{{T: before, GT: strT}, {T: after, GT: strT}, {T: found, GT: boolT}}}
+		},
 		// slices.Clip: same slice, no spare capacity
 		"slices.Clip": func(e *Exec, st *State, a []Val, x *ast.CallExpr) Val {
 			v := a[0]
